@@ -43,6 +43,9 @@ KnownType(t) == t \in {"login", "login-ipr", "dronecheck", "combined"}
 \*   c.tags  = every routing tag ever seen on a query (tags identify instances, so they never repeat)
 \*   c.gens  = function: client id -> number of times the server has announced it
 CInit(cfg) == [cfg |-> cfg, cl |-> <<>>, tags |-> {}, gens |-> <<>>]
+\* iauth_xquery loaded?  (cfg.xq, default TRUE.)  Without it nothing parses passwords, nothing is queried and only
+\* the host name result is required (cfg.required says so); replies are strays.
+XQc(c) == "xq" \notin DOMAIN c.cfg \/ c.cfg.xq
 GenOf(c, i) == IF i \in DOMAIN c.gens THEN c.gens[i] ELSE 0
 
 NewClient(e) ==
@@ -126,8 +129,8 @@ CStep(c, e, o, n) ==
     stray == isReply /\ ~awaited
     \* ---- state after the input line, before looking at the output -----------------------------
     x0 == IF e.e = "C" THEN [NewClient(e) EXCEPT !.gen = GenOf(c, e.id) + 1] ELSE IF tgt # -1 THEN c.cl[tgt] ELSE NewClient([addr |-> Nil, port |-> 0])
-    pwmore == e.e = "P" /\ tgt # -1 /\ x0.chal # {} /\ x0.cred # Nil
-    pwok == e.e = "P" /\ tgt # -1 /\ ~pwmore /\ e.shape = "ok"
+    pwmore == e.e = "P" /\ tgt # -1 /\ x0.chal # {} /\ x0.cred # Nil /\ XQc(c)
+    pwok == e.e = "P" /\ tgt # -1 /\ ~pwmore /\ e.shape = "ok" /\ XQc(c)
     netSetX == pwok /\ \E k \in 1..Len(e.modes) : e.modes[k] = "x"
     x1 == IF tgt = -1 THEN x0
           ELSE CASE e.e = "N" -> IF x0.host # Nil THEN x0 ELSE [x0 EXCEPT !.got = @ \cup {"host"}, !.host = e.host]
